@@ -166,3 +166,97 @@ Proof.
   - cbn. apply andb_true_intro. split; apply Rleb_true; assumption.
 Qed.
 Print Assumptions src_ecdd_refines_spec.
+
+(** * EDDM: `_update` (Welford statistics of the distances between errors behind six validated setters, the
+      `float("-inf")` maximum, the ratio rule) and `reset` *)
+Section EqEDDM.
+  Context {A : Arith}.
+  Variables c0 : Z. Variables wl dl : num A.   (* SPC base fields the EDDM configuration also stores: never read *)
+  Definition eddm_cfg_t (c : eddm_cfg A) := (c0, wl, dl, ed_alpha c, ed_beta c, ed_level c, ed_min c).
+  Definition eddm_t (c : eddm_cfg A) (s : eddm_st A) :=
+    (eddm_cfg_t c, en s, edrift s, elast s, emax s, emean s, enmis s, eold s, estd s, evar s, ewarning s).
+
+  (** the setters of the four statistics reject negative values: the step agrees with the model whenever the old
+      mean and the new mean / variance / deviation are not negative (always so over R, see below) *)
+  Definition eddm_nonneg (s : eddm_st A) : Prop :=
+    let k := (enmis s + 1)%Z in
+    let dist := sub (ofZ (en s + 1)) (elast s) in
+    let mean := add (emean s) (div (sub dist (emean s)) (ofZ k)) in
+    let var := add (evar s) (mul (sub dist mean) (sub dist (emean s))) in
+    ltb (emean s) (ofZ 0) = false /\ ltb mean (ofZ 0) = false /\ ltb var (ofZ 0) = false /\
+    ltb (sqrt (div var (ofZ k))) (ofZ 0) = false.
+
+  Lemma EDDM_update_eq : forall c s v, (0 <= en s)%Z -> (0 <= enmis s)%Z -> (eqb v (ofZ 1) = true -> eddm_nonneg s) ->
+    EDDM__update (eddm_t c s) v = Ok (eddm_t c (eddm_step c s v), tt).
+  Proof.
+    intros c [n last mx mean k old std var d w] v Hn Hk Hnn. cbn in Hn, Hk.
+    unfold eddm_nonneg in Hnn. cbn in Hnn.
+    autounfold with gensrc. unfold eddm_t, eddm_cfg_t, eddm_step, one, zero. cbn -[Z.mul].
+    destruct (Z.ltb_spec (n + 1) 0); [lia|]. cbn -[Z.mul].
+    destruct (eqb v (ofZ 1)) eqn:Ev; cbn -[Z.mul]; [|reflexivity].
+    destruct (Hnn eq_refl) as (H1 & H2 & H3 & H4).
+    destruct (Z.ltb_spec (k + 1) 0); [lia|]. cbn -[Z.mul].
+    rewrite H1. cbn -[Z.mul]. rewrite H2. cbn -[Z.mul]. rewrite H3. cbn -[Z.mul].
+    destruct (Z.ltb_spec 0 (k + 1)); [|lia]. cbn -[Z.mul]. rewrite H4. cbn -[Z.mul].
+    destruct (Z.ltb_spec (n + 1) 0); [lia|]. cbn -[Z.mul].
+    destruct (Z.leb (ed_min c) (n + 1)); cbn -[Z.mul]; [|reflexivity].
+    unfold gt_opt, xn_lt_xn, xn_div. destruct mx as [m|]; cbn -[Z.mul]; [|reflexivity].
+    repeat match goal with |- context [if ?b then _ else _] => destruct b eqn:? end; reflexivity.
+  Qed.
+
+  (** reset() writes 0.0 through the validated setters: `0.0 < 0` must be False in the number system *)
+  Lemma EDDM_reset_eq : forall c s, ltb (@ofZ A 0) (ofZ 0) = false ->
+    EDDM_reset (eddm_t c s) = Ok (eddm_t c (eddm_init c), tt).
+  Proof. intros c s H0. autounfold with gensrc. unfold eddm_t, eddm_cfg_t. cbn. rewrite H0. reflexivity. Qed.
+End EqEDDM.
+
+(** over R: the four statistics are the batch mean / SSD / deviation of the error distances, hence never negative *)
+Lemma gaps_from_nonneg : forall vs pos last x, In x (gaps_from vs pos last) -> (0 <= x)%R.
+Proof.
+  induction vs as [|v vs IH]; intros pos last x Hin; cbn in Hin; [contradiction|].
+  destruct (Req_EM_T v 1).
+  - destruct Hin as [<-|Hin]; [apply pos_INR | eapply IH; eassumption].
+  - eapply IH; eassumption.
+Qed.
+
+Lemma g_eddm_run_eq : forall c0 (wl dl : R) (c : eddm_cfg RealA) vs pre,
+  g_run EDDM__update (eddm_t c0 wl dl c (eddm_run c pre)) vs = Ok (eddm_t c0 wl dl c (eddm_run c (pre ++ vs))).
+Proof.
+  intros c0 wl dl c vs. induction vs as [|v r IH]; intros pre; [rewrite app_nil_r; reflexivity|].
+  cbn [g_run].
+  destruct (eddm_run_inv c pre) as (Hn & Hlast & Hk & Hm & Hv & Hs).
+  rewrite EDDM_update_eq.
+  - rewrite <- eddm_run_snoc. replace (pre ++ v :: r) with ((pre ++ [v]) ++ r) by (rewrite <- app_assoc; reflexivity). apply IH.
+  - rewrite Hn. lia.
+  - rewrite Hk. lia.
+  - intros Ev. cbn in Ev. apply Reqb_true in Ev.
+    destruct (eddm_run_inv c (pre ++ [v])) as (_ & _ & _ & Hm' & Hv' & Hs').
+    rewrite eddm_run_snoc in Hm', Hv', Hs'.
+    destruct (eddm_step_err_fields c (eddm_run c pre) v Ev) as (_ & _ & _ & Fm & Fv & _).
+    unfold eddm_nonneg. cbn [ltb RealA ofZ sqrt add sub mul div num].
+    repeat split; apply Rltb_false.
+    + rewrite Hm. apply Rmean_nonneg. intros x Hx. eapply gaps_from_nonneg; eassumption.
+    + rewrite <- Fm, Hm'. apply Rmean_nonneg. intros x Hx. eapply gaps_from_nonneg; eassumption.
+    + rewrite <- Fv, Hv'. apply Rssd_nonneg.
+    + apply sqrt_pos.
+Qed.
+
+
+(** C03 (EDDM clause) over the source-derived definitions: from the state reset() produces, after any real stream no
+    update raises (none of the six setter guards can fire) and the statistics the code holds are the batch mean, sum
+    of squared deviations and population deviation of the distances between errors -- the quantities the published
+    ratio rule is stated on (the rule itself, per step: [eddm_rule] on the model, which the run below reaches). *)
+Theorem src_eddm_stats_batch : forall c0 (wl dl : R) (c : eddm_cfg RealA) (s0 : eddm_st RealA) (vs : list R),
+  match EDDM_reset (eddm_t c0 wl dl c s0) with
+  | Ok (s1, _) => g_run EDDM__update s1 vs = Ok (eddm_t c0 wl dl c (eddm_run c vs)) /\
+      let s := eddm_run c vs in let ds := gaps (rev vs) in
+      en s = Z.of_nat (length vs) /\ enmis s = Z.of_nat (length ds) /\
+      (ds <> [] -> emean s = Rmean ds /\ evar s = Rssd ds /\ estd s = sqrt (Rssd ds / INR (length ds))%R)
+  | Raise _ => False
+  end.
+Proof.
+  intros c0 wl dl c s0 vs. rewrite EDDM_reset_eq by (cbn; apply Rltb_false; lra).
+  cbv beta iota. split; [exact (g_eddm_run_eq c0 wl dl c vs [])|].
+  destruct (eddm_stats_batch c vs) as (H1 & H2 & H3 & _). cbv zeta in *. repeat split; try assumption; apply H3; assumption.
+Qed.
+Print Assumptions src_eddm_stats_batch.
